@@ -17,6 +17,7 @@ import sqlite3
 import tempfile
 
 import lbry.wallet  # noqa: F401  (import order)
+import lbry.blob.blob_file as blob_file_module
 from lbry.conf import Config
 from lbry.extras.daemon.storage import SQLiteStorage
 from lbry.blob.blob_manager import BlobManager
@@ -243,7 +244,7 @@ async def _run_impl(d, case):
         rank = {a: i + 1 for i, a in enumerate(times)}
 
         def fwd(a): return a
-        def back(v): return rank[v]
+        def back(v): return rank.get(v, v)
         s0 = snapshot(dbpath, bd, unhex, back)
         derived = {'blobs': [list(b) for b in s0.blobs], 'sblobs': [list(x) for x in s0.sblobs],
                    'streams': [list(x) for x in s0.streams], 'files': list(s0.files), 'disk': list(s0.disk)}
@@ -261,7 +262,7 @@ async def _run_impl(d, case):
         for o in case['ops']:
             if o[0] == 'add':
                 ids.add(o[1][0])
-            elif o[0] == 'delete':
+            elif o[0] in ('delete', 'hide', 'restore') and o[1] != 'all':
                 ids.update(o[1])
         unhex = {hx(i): i for i in ids}
         if mode == 'float':
@@ -284,24 +285,36 @@ async def _run_impl(d, case):
                 t.execute("insert into file values (?, NULL, NULL, NULL, 0.0, 'running', 0, NULL, 5)", (hx(sh),))
         await st.db.run_with_foreign_keys_disabled(ins)
 
+    names = {v: k for k, v in unhex.items()}
+
+    def nm(h):
+        return names.get(h) or hx(h)
+
     def mkfile(h, ln):
-        with open(os.path.join(bd, hx(h)), 'wb') as f:
+        with open(os.path.join(bd, nm(h)), 'wb') as f:
             f.truncate(ln if 0 < ln <= 4 * MIB else 1)
     if derived is None:
         for h in db['disk']:
             mkfile(h, lengths.get(h, 1))
         for h in case.get('loaded', []):
             if h in db['disk']:
-                bm.get_blob(hx(h))
+                bm.get_blob(nm(h))
 
     passes = []          # every _clean call, monitored
     captured = []
-    orig_delete = bm.delete_blobs
+    box = {}
 
-    async def delete_blobs(blob_hashes, delete_from_db=True):
-        captured.append(([unhex.get(x, x) for x in blob_hashes], delete_from_db))
-        return await orig_delete(blob_hashes, delete_from_db)
-    bm.delete_blobs = delete_blobs
+    def watch_bm(b):
+        orig = b.delete_blobs
+
+        async def delete_blobs(blob_hashes, delete_from_db=True):
+            captured.append(([unhex.get(x, x) for x in blob_hashes], delete_from_db))
+            return await orig(blob_hashes, delete_from_db)
+        b.delete_blobs = delete_blobs
+        box['bm'], box['orig_delete'] = b, orig
+    watch_bm(bm)
+    away = os.path.join(d, 'away')
+    os.mkdir(away)
     orig_clean = dsm._clean
 
     async def watched_clean(is_network_blob=False):
@@ -377,13 +390,45 @@ async def _run_impl(d, case):
             resolved.append(['clean', cl, nl])
         elif o[0] == 'add':
             h, ln, a, mine, _fin = o[1]
-            await st.add_blobs((hx(h), ln, fwd(a), 1 if mine else 0), finished=True)
-            if not os.path.exists(os.path.join(bd, hx(h))):
+            await st.add_blobs((nm(h), ln, fwd(a), 1 if mine else 0), finished=True)
+            if not os.path.exists(os.path.join(bd, nm(h))):
                 mkfile(h, ln)
             resolved.append(['add', [h, ln, a, mine, True]])
         elif o[0] == 'delete':                    # the user removes blobs through the BlobManager API
-            await orig_delete([hx(h) for h in o[1]], True)
+            await box['orig_delete']([nm(h) for h in o[1]], True)
             resolved.append(['delete', list(o[1])])
+        elif o[0] == 'hide':                      # blob files become invisible (directory unavailable / files moved away)
+            hs = sorted(unhex[n] for n in os.listdir(bd) if n in unhex) if o[1] == 'all' else list(o[1])
+            for h in hs:
+                if os.path.exists(os.path.join(bd, nm(h))):
+                    os.replace(os.path.join(bd, nm(h)), os.path.join(away, nm(h)))
+            resolved.append(['hide', hs])
+        elif o[0] == 'restore':
+            hs = sorted(unhex[n] for n in os.listdir(away) if n in unhex) if o[1] == 'all' else list(o[1])
+            for h in hs:
+                if os.path.exists(os.path.join(away, nm(h))):
+                    os.replace(os.path.join(away, nm(h)), os.path.join(bd, nm(h)))
+                elif not os.path.exists(os.path.join(bd, nm(h))):
+                    mkfile(h, lengths.get(h, 1))
+            resolved.append(['restore', hs])
+        elif o[0] == 'setup':                     # a restart: a new BlobManager runs setup() (the clock is the harness's)
+            now = o[1]
+            sizes = sorted([unhex[n], os.stat(os.path.join(bd, n)).st_size] for n in os.listdir(bd) if n in unhex)
+            box['bm'].stop()
+            nb = BlobManager(loop, bd, st, conf)
+            watch_bm(nb)
+            dsm.blob_manager = nb
+            watcher.blob_manager = nb
+
+            class _Clock:
+                time = staticmethod(lambda: fwd(now))
+            real_time = blob_file_module.time
+            blob_file_module.time = _Clock
+            try:
+                await nb.setup()
+            finally:
+                blob_file_module.time = real_time
+            resolved.append(['setup', now, sizes])
         elif o[0] == 'status':                    # status reads on the manager under test (they fill its cache)
             if o[1] == 'used':
                 await dsm.get_space_used_mb()
@@ -400,7 +445,7 @@ async def _run_impl(d, case):
         snap = snapshot(dbpath, bd, unhex, back)
         ob['files_stopped'] = all(x == 'stopped' for x in snap.file_status) if snap.file_status else None
         steps.append(ob)
-    bm.stop()
+    box['bm'].stop()
     await st.close()
     return {'initial': initial, 'steps': steps, 'init_cands': init_cands, 'derived_db': derived}, resolved, passes
 
@@ -593,11 +638,27 @@ def gen_limit(rng):
 STATUS_KINDS = ['used', 'free_content', 'free_net']
 
 
+def gen_restart(rng, db, clock):
+    """the daemon restarts while (some) blob files are not visible, restarts again with them back, then cleans up"""
+    ids = [b[0] for b in db['blobs']]
+    hid = ids if rng.random() < 0.6 else [h for h in ids if rng.random() < 0.5]
+    clock[0] += 1000
+    ops = [['hide', hid], ['setup', clock[0]]]
+    if rng.random() < 0.3:
+        ops.append(['pass', rng.random() < 0.4, gen_limit(rng)])
+    clock[0] += 1000
+    ops += [['restore', hid if rng.random() < 0.8 else [h for h in hid if rng.random() < 0.7]], ['setup', clock[0]]]
+    lim = rng.choice([['below', rng.randrange(1000)], ['neg', 0], ['abs', 1], ['below1', 0]])
+    ops.append(['pass', False, lim] if rng.random() < 0.7 else ['clean', lim, gen_limit(rng)])
+    return ops
+
+
 def gen_ops(rng, db, nid):
     """histories: passes and clean() with limits relative to the usage at that moment, usage changing in between (blobs
     of a stream being downloaded complete, new network blobs arrive, the user removes blobs through the API), status
     reads, and the same pass again after such changes"""
     ops = []
+    clock = [300000]
     pending = [b for b in db['blobs'] if not b[4] and not b[3]]
     rng.shuffle(pending)
 
@@ -622,8 +683,9 @@ def gen_ops(rng, db, nid):
                     b = pending.pop()
                     ops.append(['add', [b[0], b[1], b[2], b[3], True]])
                 elif db['blobs'] and r < 0.8:
+                    # an existing row is re-registered; the completing object may carry another is_mine than the row
                     b = rng.choice(db['blobs'])
-                    ops.append(['add', [b[0], b[1], b[2], b[3], True]])
+                    ops.append(['add', [b[0], b[1], b[2], b[3] if rng.random() < 0.4 else not b[3], True]])
                 else:
                     nid[0] += 1
                     ops.append(['add', [nid[0], gen_size(rng, rng.choice(['mixed', 'full'])), rng.randrange(100000, 200000),
@@ -642,8 +704,10 @@ def gen_ops(rng, db, nid):
                 ops.append(['repass'])
             else:
                 a_pass()
-        else:
+        elif c < 0.93:
             ops.append(['status', rng.choice(STATUS_KINDS)])
+        else:
+            ops.extend(gen_restart(rng, db, clock))
     if not any(o[0] in ('pass', 'clean') for o in ops):
         a_pass()
     return ops
@@ -664,6 +728,10 @@ def gen_real(rng):
             ops.append(['clean', gen_limit(rng), gen_limit(rng)])
         if rng.random() < 0.6:
             ops.append(['repeat'])
+    if rng.random() < 0.5:
+        # restart around an unavailable blob directory
+        ops = [['hide', 'all'], ['setup', 1], ['restore', 'all'], ['setup', 2]] + ops
+        ops.append(['pass', False, ['below', rng.randrange(1000)]])
     return {'real': {'streams': streams, 'net': net}, 'ops': ops}
 
 
@@ -722,6 +790,27 @@ def check_case(run, model, case, kind):
                        'case': hashlib.sha1(vlib.canon(case).encode()).hexdigest()[:12]}
             bad = (text, sig)
         prev = p
+    # the property over the whole history: a blob the user published (its row was created with is_mine=1) is never
+    # deleted by a cleanup pass, whatever happened in between (restarts, re-registration, status changes)
+    published = {b[0] for b in case['db']['blobs'] if b[3]}
+    present = {b[0] for b in case['db']['blobs']}
+    pi = 0
+    for i, o in enumerate(case['ops']):
+        if o[0] == 'add' and o[1][0] not in present:
+            (published.add if o[1][3] else published.discard)(o[1][0])
+        elif o[0] == 'delete':
+            published -= set(o[1])
+        for p in passes[pi:pi + {'pass': 1, 'clean': 2}.get(o[0], 0)]:
+            lost = [h for h in p['deleted'] if h in published]
+            if lost and not bad:
+                bad = (f"blob {lost[0]} was published by the user (its row was created with is_mine=1) and was deleted by the "
+                       f"{'network' if p['net'] else 'content'} pass of operation {i}",
+                       {'clause': 'published-deleted', 'op': i, 'case': hashlib.sha1(vlib.canon(case).encode()).hexdigest()[:12]})
+        pi += {'pass': 1, 'clean': 2}.get(o[0], 0)
+        if i < len(impl['steps']):
+            present = {b[0] for b in impl['steps'][i]['blobs']}
+    if any(o[0] == 'setup' for o in case['ops']):
+        run.count('histories with a restart (BlobManager.setup)')
     run.count('ops=%d' % len(case['ops']))
     run.count('blobs=%s' % ('0' if not case['db']['blobs'] else '1-5' if len(case['db']['blobs']) <= 5 else
                             '6-15' if len(case['db']['blobs']) <= 15 else '16-30' if len(case['db']['blobs']) <= 30 else '31+'))
